@@ -8,7 +8,7 @@ R(n, c, cmd, t, pl) == [k |-> "recv", n |-> n, c |-> c, cmd |-> cmd, ack |-> 0, 
                         buf |-> FALSE, fault |-> "", fk |-> 0]
 S(n, c, cmd, t, pl, b) == [R(n, c, cmd, t, pl) EXCEPT !.k = "send", !.buf = b]
 Alpha == <<
-  R(1, 255, 0, 17, P20), R(1, 0, 0, 6, Pa), R(1, 0, 1, 0, Pa), R(1, 0, 1, 1, Pb), R(1, 0, 2, 0, PEmpty), R(1, 1, 2, 0, PEmpty),
+  R(1, 255, 0, 17, P20), R(3, 255, 0, 17, PEmpty), R(1, 0, 0, 6, Pa), R(1, 0, 1, 0, Pa), R(1, 0, 1, 1, Pb), R(1, 0, 2, 0, PEmpty), R(1, 1, 2, 0, PEmpty),
   R(2, 0, 1, 0, Pa), R(3, 0, 1, 0, Pa),
   R(1, 255, 3, 0, P57), R(1, 255, 3, 0, Pabc), R(1, 255, 3, 1, PEmpty), R(1, 255, 3, 6, PEmpty), R(255, 255, 3, 3, PEmpty), R(255, 7, 3, 4, P1), R(255, 7, 3, 3, PEmpty),
   R(1, 255, 3, 11, Pa), R(1, 255, 3, 12, Pa), R(0, 255, 3, 14, PEmpty), R(0, 255, 3, 9, Pa),
